@@ -12,6 +12,7 @@ import FontVerif.Lemmas.Cmap4Seg
 import FontVerif.Lemmas.Cmap4Top
 import FontVerif.Lemmas.CmapNorm
 import FontVerif.Lemmas.CmapTop
+import FontVerif.Lemmas.Cmap14
 set_option linter.unusedVariables false
 namespace FontVerif.C08
 open FontVerif FontVerif.Cmap
@@ -276,5 +277,48 @@ example : ConflictFree [(0x1F600, 10), (66, 6), (65, 5), (66, 6), (0x4E00, 40000
   unfold ConflictFree; decide
 example : findConflict (dedup [(65, 1), (65, 3), (66, 2), (66, 2)]) = some (65, 1, 3) := by decide
 example : ¬ ConflictFree [(65, 1), (66, 2), (65, 3)] := by unfold ConflictFree; decide
+
+/-! ### format 14: variation sequences -/
+
+/-- On every well-formed format-14 table (selectors, default ranges and non-default mappings
+sorted as the format requires; `Wf14`) `Cmap14::map_variant` — three nested runs of core's
+`binary_search_by`, transcribed — returns the answer that was encoded: `UseDefault` exactly when the
+code point lies in a default-UVS range of the selector's record, `Variant(g)` exactly when it does
+not and `(c, g)` is a non-default mapping of that record, and `None` otherwise. -/
+theorem cmap14_map_variant (t : List VarSel) (hw : Wf14 t) (c sel : Nat) :
+    (mapVariant t c sel = some .useDefault ↔ ∃ rec ∈ t, rec.selector = sel ∧ InDefaults rec c) ∧
+    (∀ g, mapVariant t c sel = some (.variant g) ↔
+      ∃ rec ∈ t, rec.selector = sel ∧ ¬ InDefaults rec c ∧ InNonDefaults rec c g) :=
+  mapVariant_iff t hw c sel
+
+/-- `Cmap14Iter` and `map_variant` agree: everything `map_variant` answers is enumerated, and every
+enumerated triple is what `map_variant` answers — unless a default range shadows a non-default
+mapping of the same selector, in which case `map_variant` answers `UseDefault` -/
+theorem cmap14_iter_agrees (t : List VarSel) (hw : Wf14 t) (c sel : Nat) (v : MapVariant) :
+    (mapVariant t c sel = some v → (c, sel, v) ∈ iter14 t) ∧
+    ((c, sel, v) ∈ iter14 t → mapVariant t c sel = some v ∨ mapVariant t c sel = some .useDefault) := by
+  obtain ⟨m1, m2⟩ := mapVariant_iff t hw c sel
+  constructor
+  · intro h
+    rw [mem_iter14]
+    cases v with
+    | useDefault =>
+      obtain ⟨rec, h1, h2, h3⟩ := m1.1 h
+      exact ⟨rec, h1, h2, Or.inl ⟨rfl, h3⟩⟩
+    | variant g =>
+      obtain ⟨rec, h1, h2, _, h4⟩ := (m2 g).1 h
+      exact ⟨rec, h1, h2, Or.inr ⟨g, rfl, h4⟩⟩
+  · intro h
+    rw [mem_iter14] at h
+    obtain ⟨rec, h1, h2, ⟨rfl, h3⟩ | ⟨g, rfl, h3⟩⟩ := h
+    · exact Or.inl (m1.2 ⟨rec, h1, h2, h3⟩)
+    · by_cases hin : InDefaults rec c
+      · exact Or.inr (m1.2 ⟨rec, h1, h2, hin⟩)
+      · exact Or.inl ((m2 g).2 ⟨rec, h1, h2, hin, h3⟩)
+
+/-- non-vacuity: two selectors, default ranges and non-default mappings -/
+example : Wf14 [⟨0xFE00, some [(0x20, 3), (0x4E00, 0)], some [(0x21, 7), (0x30, 9)]⟩,
+                ⟨0xFE01, none, some [(0x41, 5)]⟩] :=
+  ⟨by decide, by decide, by decide⟩
 
 end FontVerif.C08
